@@ -77,7 +77,7 @@ func c17Calls(t *ref.Table, pool []string) []call {
 	}
 	lists := [][]string{{"GET", "GET"}, {"POST", "GET"}, {"PATCH", "GET"}, {"PATCH", "BOGUS"}, {"BOGUS", "PATCH"}, {"PATCH", "HEAD"}, {"PATCH", "OPTIONS"}, {"PATCH", "TRACE"}, {"get"}, {""}, {"PATCH", ""}, {"HEAD"}, {"OPTIONS"}}
 	targets := append([]string{}, pool...)
-	targets = append(targets, "/posts/au", "/new", "/p/{x}/yy")
+	targets = append(targets, "/posts/au", "/new", "/p/{x}/yy", "/p/{x}/w", "/p/{x}-w")
 	for _, p := range targets {
 		for _, l := range lists {
 			x = append(x, call{p, l})
@@ -161,11 +161,26 @@ func c17Paths(pool []string) []string {
 	for _, p := range pool {
 		ps = append(ps, Witness(ref.MustParse(p, ref.Interceptors{})))
 	}
-	return append(ps, "/posts/au", "/new", "/posts/", "/p/zz/yy")
+	// values that contain pieces of the literal text after the parameter: a rejected call that restructures the
+	// tree (shorter effective suffix) changes how these resolve
+	return append(ps, "/posts/au", "/new", "/posts/", "/p/zz/yy", "/p/a/b/y", "/p/a/y/y", "/p/a/z/y", "/p/a/b/z", "/p/a//y", "/posts/authorx")
 }
 
-var c17Spec = &histSpec{Prop: "C17", Alphabet: c04Alphabet, Check: func(cfg RouterCfg, hist []Op, r *Router, t *ref.Table, c *explore.Child, outc map[string]struct{}) {
-	c17Check(cfg, hist, r, t, c, outc, c04Pool, c17Paths(c04Pool))
+// c17Alphabet: the C04 alphabet plus a second route below the parameter node, so that its literal suffix gets
+// split ({x}/ + y, z) and stays split after one of them is removed.
+func c17Alphabet() []Op {
+	ops := c04Alphabet()
+	return append(ops,
+		Op{K: "handle", P: "/p/{x}/z", Ms: []string{"GET"}},
+		Op{K: "multi", Ps: []string{"/p/{x}/y", "/p/{x}/z"}, Ms: []string{"GET"}},
+		Op{K: "remove", P: "/p/{x}/z"},
+	)
+}
+
+var c17Pool = append(append([]string{}, c04Pool...), "/p/{x}/z")
+
+var c17Spec = &histSpec{Prop: "C17", Alphabet: c17Alphabet, Check: func(cfg RouterCfg, hist []Op, r *Router, t *ref.Table, c *explore.Child, outc map[string]struct{}) {
+	c17Check(cfg, hist, r, t, c, outc, c17Pool, c17Paths(c17Pool))
 }}
 
 // ---- positive clauses over pattern pairs ----
